@@ -24,6 +24,8 @@ const NAMES: &[&str] = &[
     "printer", "scanner", "elif_x", "else_y", "true", "false", "null", "global_x", "inherited",
     "_private", "a-b-c", "x_", "somehow", "noney", "A", "camelCase", "attr-2", "lets", "vars",
     "some1", "none-left", "some-1", "none2", "some_", "none_",
+    // letters and digits beyond ASCII continue an identifier
+    "größe", "名前", "x²", "v٣", "ROOT１", "été_2",
 ];
 
 const STRS: &[&str] = &[
